@@ -5,6 +5,8 @@ import WhVerif.Lemmas.C06Cigar
 import WhVerif.Lemmas.C06Iter
 import WhVerif.Lemmas.C06Locate
 import WhVerif.Lemmas.C06Window
+import WhVerif.Lemmas.C06NoRef
+import WhVerif.Lemmas.C06Enum
 /-!
 # C06 — allele detection never assigns the wrong allele to an error-free read: theorems about the model
 
@@ -126,45 +128,6 @@ example : cigarPrefixLength false [(0, 2), (3, 5), (0, 3)] 6 = .ok (6, 2)
 
 /-! ## `iterateCigar_spec` — `_iterate_cigar` -/
 
-theorem mem_enumFrom' {α} (l : List α) (n k : Nat) (x : α) :
-    (k, x) ∈ enumFrom n l ↔ n ≤ k ∧ l[k - n]? = some x := by
-  induction l generalizing n with
-  | nil => simp [enumFrom]
-  | cons y ys ih =>
-    simp only [enumFrom, List.mem_cons, Prod.mk.injEq, ih]
-    constructor
-    · rintro (⟨rfl, rfl⟩ | ⟨h1, h2⟩)
-      · simp
-      · refine ⟨by omega, ?_⟩
-        have : k - n = (k - (n + 1)) + 1 := by omega
-        rw [this]; simpa using h2
-    · rintro ⟨h1, h2⟩
-      by_cases hk : k = n
-      · left; subst hk; simp at h2; exact ⟨rfl, h2.symm⟩
-      · right; refine ⟨by omega, ?_⟩
-        have : k - n = (k - (n + 1)) + 1 := by omega
-        rw [this] at h2; simpa using h2
-
-theorem enumFrom_sorted (l : List Nat) (n : Nat) (hs : l.Pairwise (· < ·)) : SortedV (enumFrom n l) := by
-  induction l generalizing n with
-  | nil => simp [enumFrom, SortedV]
-  | cons x xs ih =>
-    simp only [List.pairwise_cons] at hs
-    simp only [enumFrom, SortedV, List.pairwise_cons]
-    refine ⟨?_, ih (n + 1) hs.2⟩
-    intro b hb
-    obtain ⟨k, y⟩ := b
-    have := ((mem_enumFrom' xs (n + 1) k y).1 hb).2
-    exact hs.1 y (List.mem_of_getElem? this)
-
-theorem enumFrom_drop {α} (l : List α) (n j : Nat) : (enumFrom n l).drop j = enumFrom (n + j) (l.drop j) := by
-  induction j generalizing l n with
-  | zero => simp
-  | succ j ih =>
-    cases l with
-    | nil => simp [enumFrom]
-    | cons x xs => simp only [enumFrom, List.drop_succ_cons, ih]; congr 1; omega
-
 /-- `iterateCigar_spec`: for strictly increasing variant positions and CIGAR operators 0–8 the lock-step walk raises no
 error and yields, for the variants from index `j` on, *in order and at most once each*, exactly the variants whose
 position the alignment's coordinate map `locate` finds — in an M/=/X or D operation, or at the reference position of an
@@ -189,18 +152,6 @@ theorem iterateCigar_spec (positions : List Nat) (j start : Nat) (c : Cigar)
     have := takeWhile_lt _ start v hv
     simp [locate_lt v.2 0 start 0 c this]
   rw [e]; rfl
-
-/-- the variants a yield can refer to: index ≥ `j`, position = `positions[index]` -/
-theorem mem_varRefsFrom (positions : List Nat) (j k p : Nat) (h : (k, p) ∈ varRefsFrom positions j) :
-    j ≤ k ∧ positions[k]? = some p := by
-  unfold varRefsFrom at h
-  rw [enumFrom_drop] at h
-  have := (mem_enumFrom' _ _ k p).1 h
-  refine ⟨by omega, ?_⟩
-  have h2 := this.2
-  rw [List.getElem?_drop] at h2
-  have e : j + (k - (0 + j)) = k := by omega
-  rwa [e] at h2
 
 /-- `iterateCigar_spec`, meaning of a yield: the split point `(i, consumed)` cuts the CIGAR into a left and a right part
 that re-assemble the alignment column by column; the left part consumes exactly the reference bases from the read start
@@ -433,6 +384,69 @@ theorem walker_split_in_block (A B : Cigar) (mop m pos start : Nat) (hm : isMatc
   have := locate_in_block A B mop m pos 0 start 0 hm hin
   simpa using this
 
+/-! ## `noref_snv_correct` — the no-reference detector on SNVs -/
+
+/-- `noref_snv_correct`: when every variant is an SNV (REF and ALT single, different bases; positions strictly
+increasing), for every CIGAR over the operators 0–8 — soft/hard clips, insertions, deletions, reference skips, =/X
+included — and a query as long as the CIGAR says, the no-reference detector (normalisation, conflict removal, queue,
+three handlers, pop loop; as-is or repaired, `fx` arbitrary) raises no error and returns exactly `snvExpected`: each SNV
+whose position lies in an M/=/X operation is called REF or ALT according to the query base aligned to it (no call for a
+third base), with that base's quality; no call for SNVs in a deletion, in a skipped region or outside the alignment. -/
+theorem noref_snv_correct (fx : Fixes) (variants : List Variant) (first start : Nat) (cigar : Cigar) (query : Seq)
+    (quals : Option (List Nat)) (hsnv : ∀ v ∈ variants, SnvV v)
+    (hsorted : variants.Pairwise (fun a b => a.pos < b.pos)) (hops : ∀ p ∈ cigar, p.1 ≤ 8)
+    (hlen : qLen cigar ≤ query.length) (hquals : ∀ l, quals = some l → l.length = query.length) :
+    detectNoRef fx variants first start cigar query quals =
+      (snvExpected query quals start 0 ((enumFrom 0 variants).drop first) cigar, none) := by
+  unfold detectNoRef
+  have hnorm : variants.map normalize = variants := by
+    conv => rhs; rw [← List.map_id variants]
+    exact List.map_congr_left (fun v hv => normalize_snv v (hsnv v hv))
+  have hno : nonOverlapping variants = List.range' 0 variants.length :=
+    nonOverlapGo_snv variants [] 0 hsnv (by simp) hsorted
+  have hvps : (List.range' 0 variants.length).filterMap (fun id => (variants[id]?).map (fun v => (id, v))) =
+      enumFrom 0 variants := by
+    have := filterMap_range'_enum ([] : List Variant) variants
+    simpa using this
+  simp only [hnorm, hno, hvps]
+  have hsub : ((enumFrom 0 variants).drop first).Sublist (enumFrom 0 variants) := List.drop_sublist _ _
+  have hall : ∀ p ∈ (enumFrom 0 variants).drop first, SnvV p.2 := by
+    intro p hp
+    obtain ⟨k, v⟩ := p
+    exact hsnv v (mem_enumFrom_snd variants 0 k v (hsub.subset hp))
+  have hsp : SortedP ((enumFrom 0 variants).drop first) :=
+    List.Pairwise.sublist hsub (enumFrom_sortedP variants 0 hsorted)
+  rw [noRefGo_snv fx query quals cigar hops hquals false start 0 _
+    (fun p hp => hall p (mem_dropWhile_mem _ _ _ hp)) (sortedP_dropWhile _ hsp _) (by omega)]
+  rw [snvExpected_dropWhile]
+
+/-- what a call means: allele 0 ⇔ the aligned query base is the REF base, allele 1 ⇔ it is the ALT base -/
+theorem snvCall_sound (query : Seq) (quals : Option (List Nat)) (id : Nat) (v : Variant) (q : Nat) (r a : Char)
+    (hr : v.ref = [r]) (ha : v.alts = [[a]]) (k h qual : Nat)
+    (hc : snvCall query quals id v q = some (k, h, qual)) :
+    k = id ∧ qual = qualAt quals q ∧ ((h = 0 ∧ query[q]? = some r) ∨ (h = 1 ∧ query[q]? = some a)) := by
+  unfold snvCall at hc
+  cases hq : query[q]? with
+  | none => simp [hq] at hc
+  | some b =>
+    simp only [hq, hr, ha] at hc
+    by_cases h1 : r = b
+    · subst h1; simp at hc; obtain ⟨rfl, rfl, rfl⟩ := hc; exact ⟨rfl, rfl, Or.inl ⟨rfl, rfl⟩⟩
+    · by_cases h2 : a = b
+      · subst h2; simp [h1] at hc; obtain ⟨rfl, rfl, rfl⟩ := hc; exact ⟨rfl, rfl, Or.inr ⟨rfl, rfl⟩⟩
+      · simp [h1, h2] at hc
+
+/-- … and an error-free read is called correctly: if the aligned base is the base of allele `h`, the call is `h` -/
+theorem snvCall_complete (query : Seq) (quals : Option (List Nat)) (id : Nat) (v : Variant) (q : Nat) (r a : Char)
+    (hr : v.ref = [r]) (ha : v.alts = [[a]]) (hne : r ≠ a) :
+    (query[q]? = some r → snvCall query quals id v q = some (id, 0, qualAt quals q)) ∧
+    (query[q]? = some a → snvCall query quals id v q = some (id, 1, qualAt quals q)) := by
+  constructor
+  · intro h; simp [snvCall, h, hr]
+  · intro h
+    have : ¬ r = a := hne
+    simp [snvCall, h, hr, ha, this]
+
 /-! ## non-vacuity: the hypotheses of the theorems above are satisfiable (concrete instances) -/
 
 section NonVacuity
@@ -477,6 +491,67 @@ example : iterateCigar [3, 10, 12, 14, 30] 0 5 [(4, 2), (0, 4), (1, 2), (0, 2), 
 14 … 23 inside the N -/
 example : iterateCigar [3, 10, 12, 14, 30] 0 5 [(4, 2), (0, 4), (1, 2), (0, 2), (2, 3), (3, 10), (0, 8)]
     = ([⟨1, 3, 1, 9⟩, ⟨2, 4, 1, 10⟩, ⟨4, 6, 6, 16⟩], none) := by decide
+/-- hypotheses of `iterateCigar_not_in_N` / `_yield_sound` / `_within_span` on that read: 14 lies inside the N -/
+example (y : Yield)
+    (hy : y ∈ (iterateCigar [3, 10, 12, 14, 30] 0 5 ([(4, 2), (0, 4), (1, 2), (0, 2), (2, 3)] ++ (3, 10) :: [(0, 8)])).1) :
+    [3, 10, 12, 14, 30][y.index]? ≠ some 14 :=
+  iterateCigar_not_in_N _ 0 5 _ _ 10 (by decide) (by decide) 14 (by decide)
+    (by
+      intro k l h
+      match k with
+      | 0 => simp at h
+      | 1 => simp at h
+      | 2 => decide
+      | 3 => simp at h
+      | 4 => simp at h
+      | k + 5 => simp at h) y hy
+
+/-- `noref_snv_correct` on a concrete read: `2S 4M 1D 3M` at 1, SNVs at 3 (A>C, read has C) and 6 (G>T, read has G) -/
+example : detectNoRef Fixes.asIs [⟨3, ['A'], [['C']]⟩, ⟨6, ['G'], [['T']]⟩] 0 1 [(4, 2), (0, 4), (2, 1), (0, 3)]
+      ['T', 'T', 'G', 'G', 'C', 'G', 'G', 'G', 'T'] none
+    = (snvExpected ['T', 'T', 'G', 'G', 'C', 'G', 'G', 'G', 'T'] none 1 0
+        ((enumFrom 0 [(⟨3, ['A'], [['C']]⟩ : Variant), ⟨6, ['G'], [['T']]⟩]).drop 0) [(4, 2), (0, 4), (2, 1), (0, 3)], none) :=
+  noref_snv_correct _ _ 0 1 _ _ none
+    (by
+      intro v hv
+      simp only [List.mem_cons, List.not_mem_nil, or_false] at hv
+      rcases hv with rfl | rfl
+      · exact ⟨'A', 'C', rfl, rfl, by decide⟩
+      · exact ⟨'G', 'T', rfl, rfl, by decide⟩)
+    (by simp) (by decide) (by decide) (by simp)
+
+example : snvExpected ['T', 'T', 'G', 'G', 'C', 'G', 'G', 'G', 'T'] none 1 0
+      [(0, (⟨3, ['A'], [['C']]⟩ : Variant)), (1, ⟨6, ['G'], [['T']]⟩)] [(4, 2), (0, 4), (2, 1), (0, 3)]
+    = [(0, 1, 30), (1, 0, 30)] := by decide
+
+/-- defect F13 on the as-is model (`f13 = false`): a read carrying the REF `CTG` of the deletion `ACTG>A` (normalised:
+`CTG>ε` at 4) gets no allele without a reference because the match handler compares query base 0 with every allele base;
+the repaired model records REF -/
+example : noRefGo Fixes.asIs ['G', 'G', 'G', 'A', 'C', 'T', 'G', 'T', 'T'] none false 0 0 [(0, ⟨4, ['C', 'T', 'G'], [[]]⟩)] [] [(0, 9)]
+      = ([], none)
+    ∧ noRefGo Fixes.all ['G', 'G', 'G', 'A', 'C', 'T', 'G', 'T', 'T'] none false 0 0 [(0, ⟨4, ['C', 'T', 'G'], [[]]⟩)] [] [(0, 9)]
+      = ([(0, 0, 30)], none)
+    ∧ normalize ⟨3, ['A', 'C', 'T', 'G'], [['A']]⟩ = ⟨4, ['C', 'T', 'G'], [[]]⟩ := by decide
+
+/-- defect F16 on the as-is model: the 5-base insertion after 20 also "sees" the insertion variant `ε>CC` at 24 and calls it
+REF from the wrong query bases; the repaired model calls ALT at the second insertion -/
+example : noRefGo Fixes.asIs ['G', 'G', 'A', 'C', 'A', 'C', 'A', 'T', 'T', 'T', 'C', 'C', 'G', 'G'] none false 19 0
+        [(0, ⟨24, [], [['C', 'C']]⟩)] [] [(0, 2), (1, 5), (0, 3), (1, 2), (0, 2)] = ([(0, 0, 30)], none)
+    ∧ noRefGo Fixes.all ['G', 'G', 'A', 'C', 'A', 'C', 'A', 'T', 'T', 'T', 'C', 'C', 'G', 'G'] none false 19 0
+        [(0, ⟨24, [], [['C', 'C']]⟩)] [] [(0, 2), (1, 5), (0, 3), (1, 2), (0, 2)] = ([(0, 1, 30)], none) := by decide
+
+/-- defect F12 on the as-is model: the forward mate's SNV (position 10) is dropped from an FR pair -/
+example : mergeGroup false [⟨false, false, 5, 30, [(10, 1, 30)]⟩, ⟨false, true, 40, 65, [(50, 1, 30)]⟩] 100000 = some [(50, 1, 30)]
+    ∧ mergeGroup true [⟨false, false, 5, 30, [(10, 1, 30)]⟩, ⟨false, true, 40, 65, [(50, 1, 30)]⟩] 100000
+      = some [(10, 1, 30), (50, 1, 30)] := by decide
+
+/-- defect F15 on the as-is model: the read starts at 20 (its three soft-clipped bases are the insertion anchored at 19,
+normalised `ε>TTT` at 20); as-is the variant is called REF, repaired nothing is recorded -/
+example : noRefGo Fixes.asIs ['T', 'T', 'T', 'G', 'G', 'G'] none false 20 0 [(0, ⟨20, [], [['T', 'T', 'T']]⟩)] [] [(4, 3), (0, 3)]
+      = ([(0, 0, 30)], none)
+    ∧ noRefGo Fixes.all ['T', 'T', 'T', 'G', 'G', 'G'] none false 20 0 [(0, ⟨20, [], [['T', 'T', 'T']]⟩)] [] [(4, 3), (0, 3)]
+      = ([], none) := by decide
+
 end NonVacuity
 
 end WhVerif.Props.C06
